@@ -388,8 +388,8 @@ GRAD_CASES = {
         ([2, 2, 2], [('RZZGate()', [2, 0]), ('U3Gate()', [1])]),
         ([2, 2, 2], [('CRYGate()', [0, 2]), ('RZZGate()', [1, 2])]),
         ([3], [('CKMGate()', [0])]),
-        ([3, 2], [('CKMGate()', [0]), ('U3Gate()', [1])]),
-        ([2, 3, 2], [('RZZGate()', [2, 0]), ('CKMGate()', [1])]),
+        ([3, 2], [('RSU3Gate(3)', [0]), ('ArbitraryCPhaseGate([2, 3])', [1, 0]), ('U3Gate()', [1])]),
+        ([2, 3, 2], [('RZZGate()', [2, 0]), ('RSU3Gate(1)', [1]), ('U3Gate()', [2])]),
     ],
     'thorough': [
         ([2, 2], [('U3Gate()', [0]), ('RZZGate()', [1, 0]), ('U3Gate()', [1])]),
